@@ -115,12 +115,16 @@ def gen(rng, tier):
                         f["attrs"].append([lk, [rng.choice(PLAIN_VALS)]])
     return {"dialect": d, "feats": feats, "checklines": checklines, "keep_order": keep_order, "sort_values": sortv,
             "dbfn": rng.choice(["a.db", "a.db", "a.db", ":memory:"]), "form": rng.choice(["path", "path", "string", "gz"]),
-            "end": rng.choice(["exit", "crash", "crash"]), "directives": rng.choice([[], [], ["gff-version 3"]])}
+            "end": rng.choice(["exit", "crash", "crash"]), "directives": rng.choice([[], [], ["gff-version 3"]]),
+            "short_writes": rng.random() < 0.5, "interleave": rng.random() < 0.5, "isched": [rng.randrange(2) for _ in range(rng.randint(2, 12))],
+            "update_other_dialect": rng.random() < 0.35}
 
 
 def check_dump(case, lines, d, V, where, check_lines=True):
     feats = case["feats"]
     got = d["features"]
+    if case.get("_extra_tail") and len(got) == len(feats) + 1:
+        got = got[:-1]  # the feature added by the later update (its own dialect is not judged)
     if len(got) != len(feats):
         V.append(viol("C01.once", "%s: %d features stored for %d input lines" % (where, len(got), len(feats)), kind="count",
                       more=len(got) > len(feats)))
@@ -170,7 +174,11 @@ def run(case):
         kw = dict(okw, checklines=case["checklines"], merge_strategy="create_unique")
         if d_["fam"] == "gtf":
             kw.update({"disable_infer_genes": True, "disable_infer_transcripts": True})
-        r = call(node, {"op": "create", "h": "h", "db": case["dbfn"], "data": spec, "kw": kw})
+        creq = {"op": "create", "h": "h", "db": case["dbfn"], "data": spec, "kw": kw}
+        if case["form"] == "string" and case.get("short_writes"):
+            creq["short_writes"] = True  # buggify: os.write() on world files performs legal short writes
+            probes["string_form_with_short_write_buggify"] = 1
+        r = call(node, creq)
         if not r["ok"]:
             V.append(viol("C01.import", "create_db raised %s: %s" % (r["exc"], r["msg"]), kind="import_failed", exc=r["exc"], fam=d_["fam"]))
         else:
@@ -212,6 +220,33 @@ def run(case):
                                 ok = False
                             else:
                                 probes["reimport_equivalent"] = 1
+                # two full iterations alive on the one handle, advanced alternately
+                if ok and case.get("interleave"):
+                    ri = call(node, {"op": "interleave", "h": "h", "queries": [{"m": "all_features"}, {"m": "all_features"}],
+                                     "schedule": case["isched"]})
+                    want_ids = [f["id"] for f in d["dump"]["features"]]
+                    if not ri["ok"]:
+                        V.append(viol("C01.once", "two interleaved full iterations raised %s: %s" % (ri["exc"], ri["msg"]), kind="interleave_failed"))
+                        ok = False
+                    elif ri["outs"][0] != want_ids or ri["outs"][1] != want_ids:
+                        V.append(viol("C01.once", "two interleaved full iterations yield %d and %d of %d features" % (
+                            len(ri["outs"][0]), len(ri["outs"][1]), len(want_ids)), kind="interleaved_scan"))
+                        ok = False
+                    else:
+                        probes["two_full_scans_interleaved"] = 1
+                # a later update written in ANOTHER dialect must not change how the imported lines come back
+                if ok and case.get("update_other_dialect") and d_["fam"] != "gff2":
+                    if d_["fam"] == "gff3":
+                        uline = "chrU\tupd\tgene\t1\t2\t.\t+\t.\tzz=1 ; yy=2" if d_["fsep"] != " ; " else "chrU\tupd\tgene\t1\t2\t.\t+\t.\tzz=1;yy=2;"
+                    else:
+                        uline = 'chrU\tupd\tgene\t1\t2\t.\t+\t.\tgene_id "UG" ; zz "1"' if d_["fsep"] != " ; " else 'chrU\tupd\tgene\t1\t2\t.\t+\t.\tgene_id "UG"; zz "1";'
+                    ukw = {"merge_strategy": "create_unique", "make_backup": False}
+                    if d_["fam"] == "gtf":
+                        ukw.update({"disable_infer_genes": True, "disable_infer_transcripts": True})
+                    ur = call(node, {"op": "update", "h": "h", "data": {"form": "string", "text": uline + "\n"}, "kw": ukw})
+                    if ur["ok"]:
+                        probes["update_in_other_dialect_before_reopen"] = 1
+                        case = dict(case, _extra_tail=1)
                 # process death right after the acknowledgement, or a normal exit
                 if ok:
                     if case["end"] == "crash":
